@@ -214,10 +214,17 @@ def make_target(spec):
         from passlib import pwd as P
 
         kw = dict(spec["kw"])
+        if kw.get("returns") == "iter":
+            kw["returns"] = iter
 
         def f(ans):
             r = env.ScriptedRng(ans)
             s = P.genword(rng=r, **kw)
+            if not isinstance(s, (str, bytes)):
+                # returns=N / returns=iter: a batch -- every symbol of every password is an output position of its own
+                # (passwords of one batch are independent draws: no answer of the source may feed two positions)
+                batch = list(s) if not hasattr(s, "__next__") else [next(s) for _ in range(3)]
+                return [ch for w in batch for ch in w] + [("len", tuple(len(w) for w in batch))], r.log
             return list(s) + [("len", len(s))], r.log
 
         if "chars" in kw:
@@ -996,6 +1003,9 @@ def targets(quick, seed):
                 if length:
                     kw["length"] = length
                 ts.append({"kind": "genword", "kw": kw})
+    for ret in (2, 3, "iter"):
+        ts.append({"kind": "genword", "kw": {"charset": "ascii_62", "length": 4, "returns": ret}})
+        ts.append({"kind": "genword", "kw": {"chars": "abc", "length": 3, "returns": ret}})
     for n in (2, 3, 7, 94):
         ts.append({"kind": "genword", "kw": {"chars": base94[:n], "entropy": 40}})
         ts.append({"kind": "genword", "kw": {"chars": base94[:n], "length": 6}})
